@@ -80,6 +80,8 @@ def buf_jobs(tier):
                          (5, "append_num_dec", "ares_buf_append_num_dec(n, 3)"), (6, "append_num_hex", "ares_buf_append_num_hex(n, 3)")):
         J.append(buf_job(nm, "fresh", ["-DOP=%d" % op], what, 1))
         for sh in ("al32_c0", "al32_c5t2"):
+            if op == 3 and sh == "al32_c5t2":
+                continue  # two bytes always fit after reclaiming the two bytes below the tag
             J.append(buf_job(nm + "_tail", sh, ["-DOP=%d" % op] + tail, what, 1, extra=" - slice: data_len 27..31 (case split)"))
     J.append(buf_job("hexdump2", "fresh", ["-DOP=9"], "ares_buf_hexdump of 2 symbolic bytes (62 output bytes, storage grows twice)", 3,
                      unwind=70))
@@ -102,9 +104,36 @@ def buf_jobs(tier):
     return J
 
 
+# ---------------------------------------------------------------------------------------------- 2. containers
+ARRAY_OPS = {0: "insert_at", 1: "insertdata_at", 2: "insertdata_first", 3: "insertdata_last", 4: "insert_first",
+             5: "insert_last", 10: "set_size", 13: "create"}
+
+
+def array_jobs(tier):
+    J = []
+    for ms in ((4,) if tier == "quick" else (1, 4, 8)):
+        for ac in (0, 4, 8):
+            for op, nm in sorted(ARRAY_OPS.items()):
+                if op == 13 and ac != 0:
+                    continue
+                J.append(dict(name="array_%s_ms%d_ac%d" % (nm, ms, ac), harness="array_oom.c",
+                              defines=["-DMS=%d" % ms, "-DOP=%d" % op, "-DAC=%d" % ac, "-DVP_MEMSET_LOOP",
+                                       "-DVP_SIZES=%s,48" % ",".join(str(k * ms) for k in (4, 8, 16))],
+                              real=LIB, unwind=16 * ms + 2, witnesses=["end", FAILW, OKW],
+                              bound="arbitrary valid ares_array: alloc_cnt=%d, symbolic contents, member_size=%d, FULL when an insert is "
+                                    "checked (the only pre-state in which an insert allocates), any offset/cnt for set_size; "
+                                    "ONE %s (any valid index / any size 1..9) whose storage allocation (position 0..1, "
+                                    "solver-chosen) fails" % (ac, ms, nm)))
+    return J
+
+
 def jobs(tier, seed):
     J = []
     J += buf_jobs(tier)
+    J += array_jobs(tier)
+    extra = os.environ.get("C14_TEST_DEFS", "").split()  # development aid: e.g. C14_TEST_DEFS=-DKF_binstr_empty_oom
     for j in J:
         j.setdefault("mem_gb", 6)
+        if extra:
+            j["defines"] = j.get("defines", []) + extra
     return J
